@@ -310,18 +310,22 @@ def small_scope(run, prog, where, max_n):
         run.fail('D1', 'Boc.deserialize[small-scope DAG]', f'{tag} with options {opt}: {detail}  ({len(bad)} of {len(res)} small-scope cases fail)', where, witness=dict(dag=tag, opt=[str(o) for o in opt]))
 
 
-def encode_all_with_bogus_hashes(root):
-    """every cell of the DAG serialised with the with-hashes flag and arbitrary (wrong) stored hash/depth values"""
+def encode_all_with_bogus_hashes(root, true_depths=False):
+    """every cell of the DAG serialised with the with-hashes flag and arbitrary (wrong) stored hash values; the stored depths are wrong as
+    well, or (true_depths) the depths of the tree below the cell - what a forger who wants his record to look plausible writes"""
     import hashlib
     cells = bocspec.topo([root], 'dfs')
     index_of = {id(c): i for i, c in enumerate(cells)}
+
+    def depth(c):
+        return 0 if not c.refs else 1 + max(depth(r) for r in c.refs)
     payload = b''
     for ci, c in enumerate(cells):
         mask = c.mask if hasattr(c, 'mask') else 0
         k = bin(mask).count('1') + 1
         ser = bytes([c.d1() | 16, c.d2()])
         ser += b''.join(hashlib.sha256(b'bogus' + bytes([ci, i])).digest() for i in range(k))
-        ser += b''.join(bytes([0x7f, 0x7f]) for _ in range(k))
+        ser += b''.join((depth(c).to_bytes(2, 'big') if true_depths else bytes([0x7f, 0x7f])) for _ in range(k))
         ser += c.data_bytes() + bytes(index_of[id(r)] for r in c.refs)
         payload += ser
     n = len(cells)
@@ -331,10 +335,10 @@ def encode_all_with_bogus_hashes(root):
 
 def stored_hash_scenarios(run, prog, rule, dags, wc):
     # exotic cells carrying stored hashes, and: stored hashes are never trusted - the parsed cell's hash is the one computed from its content
-    for name in ('merkle-proof', 'ordinary-over-pruned', 'diamond'):
+    for name, true_depths in [(n_, t_) for n_ in ('merkle-proof', 'ordinary-over-pruned', 'diamond') for t_ in (False, True)]:
         roots = dags[name]
-        raw = encode_all_with_bogus_hashes(roots[0])
-        tag = f'{name}[every cell with stored (bogus) hashes]'
+        raw = encode_all_with_bogus_hashes(roots[0], true_depths)
+        tag = f'{name}[every cell with stored (bogus) hashes{", stored depths as in the tree" if true_depths else ""}]'
         try:
             it, res = parse(prog, raw)
             got = res.items[0] if isinstance(res, ListV) and res.items else None
@@ -345,5 +349,5 @@ def stored_hash_scenarios(run, prog, rule, dags, wc):
             why = f'same cells (types, data, references): {same}; hash and depth computed from the content, not taken from the stored values: {honest}'
         except RaiseEx as e:
             ok, why = False, f'rejected: {e}'
-        run.check(ok, rule, 'Boc.deserialize_cell[stored hashes, exotic / trust]' if not ok else f'stored-hashes-exotic[{name}]', f'{tag}: {why}', wc, witness=dict(boc=raw.hex()[:400]))
+        run.check(ok, rule, 'Boc.deserialize_cell[stored hashes, exotic / trust]' if not ok else f'stored-hashes-exotic[{name}{",true depths" if true_depths else ""}]', f'{tag}: {why}', wc, witness=dict(boc=raw.hex()[:400]))
         run.evaluations += 1
